@@ -145,10 +145,12 @@ class Ref:
                 return all(self.eval_clause(node, cl) for cl in rec)
             except Reject:
                 return False
+        # a scalar tagged with the class's own tag is what the tag says it is
+        # (C03: an explicit !ClassName tag names the candidate)
         if kind == 'enum':
-            return node[0] == 's' and node[1] in (TAGP + 'str', TAGP + 'bool')
+            return node[0] == 's' and node[1] in (TAGP + 'str', TAGP + 'bool', '!' + name)
         if kind != 'obj':
-            return node[0] == 's' and node[1] == TAGP + 'str'
+            return node[0] == 's' and node[1] in (TAGP + 'str', '!' + name)
         if node[0] != 'm':
             return False
         for pn, ptype, req in self.params(name):
